@@ -102,4 +102,13 @@ let () = run (fun case impl ->
              count "wf.reassembled_identically"
            with Fail (cls, expected) -> specfail cls case impl expected)
        | _ -> count ("not_wf.tridas_" ^ itridas ^ (if itridas = "ok" then ".trias_" ^ itrias else "")))
+  | ["G"; _; _] ->
+      (* a large binary described by the generator (well formed by construction); the byte comparison was made by the
+         harness; the model is not run on it (its cost grows faster than linearly) *)
+      count "wf_binary"; count "wf.large"; note_nontrivial case;
+      let itridas = field impl "tridas=" and itrias = field impl "trias=" in
+      if itridas <> "ok" then specfail (if itridas = "panic" then "tridas_panic" else "tridas_failed") case impl "tridas=ok"
+      else if itrias <> "ok" then specfail "listing_rejected" case impl "trias=ok"
+      else if field impl "image_eq=" <> "1" then specfail "bytes_differ" case impl "image_eq=1"
+      else count "wf.reassembled_identically"
   | _ -> disagree case impl "unparsed case")
